@@ -1472,6 +1472,8 @@ class SymEval:
                                     return base.attrs[f.name]
             raise Opaque('attribute %s.%s unknown' % (base.name, attr))
         if is_arr(base):
+            if attr in getattr(base, '_am_attrs', ()):        # a rule's model array that carries attributes of its own (element type, raw views)
+                return base._am_attrs[attr]
             if attr == 'T':
                 return base.T
             if attr == 'shape':
@@ -1499,6 +1501,8 @@ class SymEval:
                         'flatten': lambda *a, **k: base.flatten(*a, **k), 'astype': lambda *a, **k: base, 'prod': lambda: sp.Mul(*base.flat)}[attr]
             if attr == 'ravel':
                 return lambda *a, **k: base.ravel(*a, **k)
+            if attr == 'repeat':
+                return lambda r, axis=None: NP_FUNCS['numpy.repeat'](base, r, axis=axis)
             if attr == 'round':
                 return lambda *a, **k: base      # exact arithmetic: rounding to a number of decimals is the identity on the model values
             if attr == 'mean':
